@@ -69,7 +69,16 @@ pub(crate) fn convert(
                 }
             };
 
-            rect = rect.bbox_transform(object_bbox);
+            rect = match super::bbox_transform(rect, object_bbox) {
+                Some(v) => v,
+                None => {
+                    log::warn!(
+                        "Filter '{}' has an invalid region. Skipped.",
+                        node.element_id()
+                    );
+                    return;
+                }
+            };
 
             filters.push(Arc::new(Filter {
                 id: cache.gen_filter_id(),
@@ -230,7 +239,7 @@ fn convert_url(
 
     if units == Units::ObjectBoundingBox {
         if let Some(object_bbox) = object_bbox {
-            rect = rect.bbox_transform(object_bbox);
+            rect = super::bbox_transform(rect, object_bbox).ok_or(())?;
         } else {
             log::warn!("Filters on zero-sized shapes are not allowed.");
             return Err(());
@@ -414,7 +423,7 @@ fn resolve_primitive_region(
                     height.unwrap_or(1.0),
                 )?;
 
-                return Some(r.bbox_transform(bbox));
+                return super::bbox_transform(r, bbox);
             } else {
                 filter_region
             }
@@ -431,7 +440,7 @@ fn resolve_primitive_region(
             height.unwrap_or(1.0),
         )?;
 
-        Some(region.bbox_transform(subregion_bbox))
+        super::bbox_transform(region, subregion_bbox)
     } else {
         NonZeroRect::from_xywh(
             x.unwrap_or(region.x()),
@@ -676,7 +685,7 @@ fn convert_convolve_matrix(fe: SvgNode, primitives: &[Primitive]) -> Option<Kind
 
     let mut matrix = Vec::new();
     if let Some(list) = fe.attribute::<Vec<f32>>(AId::KernelMatrix) {
-        if list.len() == (order_x * order_y) as usize {
+        if list.len() as u64 == u64::from(order_x) * u64::from(order_y) {
             matrix = list;
         }
     }
@@ -1023,8 +1032,14 @@ fn convert_morphology(fe: SvgNode, scale: Size, primitives: &[Primitive]) -> Kin
 
         // Both values must be positive.
         if rx.is_sign_positive() && ry.is_sign_positive() {
-            radius_x = PositiveF32::new(rx * scale.width()).unwrap();
-            radius_y = PositiveF32::new(ry * scale.height()).unwrap();
+            // The scaled radius can still overflow.
+            if let (Some(rx), Some(ry)) = (
+                PositiveF32::new(rx * scale.width()),
+                PositiveF32::new(ry * scale.height()),
+            ) {
+                radius_x = rx;
+                radius_y = ry;
+            }
         }
     }
 
